@@ -609,8 +609,8 @@ def run(ctx) -> Report:
     rep = Report(rule=RULE)
     rng = ctx.rng
     stats = {}
-    small = [gen_small(rng) for _ in range(ctx.scale(300, 6000))]
-    large = [gen_large(rng, ctx.tier == 'thorough') for _ in range(ctx.scale(150, 4000))]
+    small = [gen_small(rng) for _ in range(ctx.scale(500, 6000))]
+    large = [gen_large(rng, ctx.tier == 'thorough') for _ in range(ctx.scale(300, 4000))]
     mid = []
     for _ in range(ctx.scale(20, 300)):                      # mid-sized streams for the dominant-position oracle
         c = gen_large(rng, False)
@@ -623,7 +623,7 @@ def run(ctx) -> Report:
         mid.append(c)
     check_cases(small + large + mid, rep, with_model=True, stats=stats)
     hash_correspondence(rng, rep, nkeyf=ctx.scale(100, 400), ndom=ctx.scale(4, 12))
-    run_snapshots(ctx, rep, ctx.scale(6, 60), stats)
+    run_snapshots(ctx, rep, ctx.scale(9, 60), stats)
     finish(rep, stats)
     rep.notes.append('the re-synchronisation DISTANCE is a measured quantity checked against a probabilistic bound (exploration support); '
                      'suffix/prefix determinism, first-maximum, dominant cut, padding alignment are theorems')
